@@ -114,6 +114,18 @@ class Ctx:
 
     def finish(self, level: str = "model_checking", rule: str = "", extra: dict | None = None) -> int:
         wall = time.time() - self.t0
+        group = getattr(self, "replay_group", None)
+        if group is not None:
+            hits = [v for v in self.violations if f"{v['site']}|{v['stratum']}" == group]
+            shutil.rmtree(self.work, ignore_errors=True)
+            if hits:
+                p = REPLAYS / f"{self.prop}-replayed.json"
+                with open(p, "w") as f:
+                    json.dump({"property": self.prop, "group": group, "count": len(hits), "cases": hits[:5]}, f, indent=1, default=str)
+                print(f"VIOLATION property={self.prop} replay={p}   ({len(hits)} case(s) in group {group})", flush=True)
+                return 1
+            print(f"replay: group {group} of {self.prop} no longer reproduces on this tree", flush=True)
+            return 0
         # known findings: one line each
         for key, h in sorted(self.known_hits.items()):
             f = self.known["findings"][key]
